@@ -125,3 +125,66 @@ GENERATED = {
     "gen:flip-compares-all": (flip_compares, "every single comparison of side-effect-free operands mirrored (`a < b` -> `b > a`, `a == b` -> `b == a`)"),
     "gen:invert-ifelse-all": (invert_ifelse, "every two-armed `if not A: X else: Y` turned into `if A: Y else: X`"),
 }
+
+
+def expand_augassign(src: str) -> str:
+    """`x += n` -> `x = x + n` (and `-=`) where n is an int constant or a len() call: numbers only, so the in-place / rebinding difference of
+    sequences does not arise."""
+    tree = ast.parse(src)
+
+    class T(ast.NodeTransformer):
+        def visit_AugAssign(self, node):
+            v = node.value
+            numeric = (isinstance(v, ast.Constant) and isinstance(v.value, int) and not isinstance(v.value, bool)) or (isinstance(v, ast.Call) and isinstance(v.func, ast.Name) and v.func.id == "len")
+            if isinstance(node.op, (ast.Add, ast.Sub)) and numeric and isinstance(node.target, (ast.Name, ast.Attribute)) and _pure(node.target):
+                load = ast.parse(ast.unparse(node.target), mode="eval").body
+                return ast.copy_location(ast.Assign(targets=[node.target], value=ast.BinOp(left=load, op=node.op, right=v), lineno=node.lineno), node)
+            return node
+    return ast.unparse(ast.fix_missing_locations(T().visit(tree))) + "\n"
+
+
+GENERATED["gen:expand-augassign-all"] = (expand_augassign, "every `x += <int or len()>` / `x -= ...` written as `x = x + ...`")
+
+
+def _terminates(body) -> bool:
+    return bool(body) and isinstance(body[-1], (ast.Return, ast.Raise, ast.Continue, ast.Break))
+
+
+def dedent_else(src: str) -> str:
+    """`if c: ...; return x  else: REST`  ->  `if c: ...; return x` followed by REST (else after a terminating arm removed)."""
+    tree = ast.parse(src)
+    for parent in ast.walk(tree):
+        for field in ("body", "orelse", "finalbody"):
+            blk = getattr(parent, field, None)
+            if not isinstance(blk, list):
+                continue
+            out = []
+            for st in blk:
+                if isinstance(st, ast.If) and st.orelse and _terminates(st.body) and not (len(st.orelse) == 1 and isinstance(st.orelse[0], ast.If) and False):
+                    rest, st.orelse = st.orelse, []
+                    out.append(st)
+                    out.extend(rest)
+                else:
+                    out.append(st)
+            setattr(parent, field, out)
+    return ast.unparse(ast.fix_missing_locations(tree)) + "\n"
+
+
+def split_and(src: str) -> str:
+    """`if a and b: X` (no else)  ->  `if a:` / `if b: X`."""
+    tree = ast.parse(src)
+
+    class T(ast.NodeTransformer):
+        def visit_If(self, node):
+            self.generic_visit(node)
+            if not node.orelse and isinstance(node.test, ast.BoolOp) and isinstance(node.test.op, ast.And) and len(node.test.values) >= 2:
+                first, rest = node.test.values[0], node.test.values[1:]
+                inner_test = rest[0] if len(rest) == 1 else ast.BoolOp(op=ast.And(), values=rest)
+                inner = ast.If(test=inner_test, body=node.body, orelse=[])
+                return ast.copy_location(ast.If(test=first, body=[ast.copy_location(inner, node)], orelse=[]), node)
+            return node
+    return ast.unparse(ast.fix_missing_locations(T().visit(tree))) + "\n"
+
+
+GENERATED["gen:dedent-else-all"] = (dedent_else, "every `else:` after an arm that ends in return/raise/continue/break removed (its statements follow the if)")
+GENERATED["gen:split-and-all"] = (split_and, "every else-less `if a and b:` split into nested ifs")
